@@ -5,6 +5,7 @@
 
 mod gen;
 mod hwwalk;
+mod irqsim;
 mod refmodel;
 mod simphys;
 mod trapemu;
